@@ -52,12 +52,24 @@ def main():
             raise SystemExit
         # demo: with and without
         demo = os.path.join(src, 'demo.cpp')
-        head = open(demo, errors='replace').read(3000)
+        demosh = os.path.join(src, 'demo.sh')
+        if os.path.exists(demosh):
+            # a driver script (several standards / a debugger session): it takes the tree to test as WT
+            res = {}
+            for label, root in (('changed', wt), ('clean', '/repo')):
+                rc2, out2 = sh('WT=%s sh %s %s' % (root, demosh, root), timeout=1800)
+                res[label] = {'build': 'ok', 'exit': rc2, 'output_tail': out2[-400:]}
+            meta['demo'] = res
+            meta['ran'].append('WT=<tree> sh demo.sh <tree>  (changed tree, then /repo)')
+            meta['demo_fails_with_change'] = res['changed']['exit'] != 0
+            meta['demo_passes_without'] = res['clean']['exit'] == 0
+            demo = None
+        head = open(demo, errors='replace').read(3000) if demo else ''
         std = re.search(r'-std=(c\+\+\w+)', head)
         std = std.group(1) if std else 'c++17'
         extra = '-DNDEBUG' if '-DNDEBUG' in head else ''
         res = {}
-        for label, inc in (('changed', os.path.join(wt, 'source/include')), ('clean', '/repo/source/include')):
+        for label, inc in ((('changed', os.path.join(wt, 'source/include')), ('clean', '/repo/source/include')) if demo else ()):
             exe = '/tmp/confirm/%s_demo_%s' % (a.id, label)
             rc, out = sh('g++ -std=%s -O1 %s -I %s %s -o %s' % (std, extra, inc, demo, exe))
             if rc:
@@ -66,10 +78,11 @@ def main():
             rc2, out2 = sh('%s' % exe, timeout=300)
             res[label] = {'build': 'ok', 'exit': rc2, 'output_tail': out2[-300:]}
             os.remove(exe)
-        meta['demo'] = res
-        meta['ran'].append('g++ -std=%s -O1 %s -I <include> demo.cpp && ./demo  (changed header, then clean header)' % (std, extra))
-        meta['demo_fails_with_change'] = res.get('changed', {}).get('exit', 0) != 0 or res.get('changed', {}).get('build') == 'FAILED'
-        meta['demo_passes_without'] = res.get('clean', {}).get('exit', 1) == 0
+        if demo:
+            meta['demo'] = res
+            meta['ran'].append('g++ -std=%s -O1 %s -I <include> demo.cpp && ./demo  (changed header, then clean header)' % (std, extra))
+            meta['demo_fails_with_change'] = res.get('changed', {}).get('exit', 0) != 0 or res.get('changed', {}).get('build') == 'FAILED'
+            meta['demo_passes_without'] = res.get('clean', {}).get('exit', 1) == 0
         # the existing suite
         if not a.skip_suite:
             t = time.time()
@@ -114,7 +127,9 @@ def main():
     if keep:
         os.makedirs(dst, exist_ok=True)
         shutil.copy(os.path.join(src, 'patch.diff'), dst)
-        shutil.copy(os.path.join(src, 'demo.cpp'), dst)
+        for fn in ('demo.cpp', 'demo.sh'):
+            if os.path.exists(os.path.join(src, fn)):
+                shutil.copy(os.path.join(src, fn), dst)
         if os.path.exists(notes):
             shutil.copy(notes, dst)
         # selftest header for the patch
